@@ -148,6 +148,18 @@ fn main() {
     for op in verif_trace::take() {
       fs.apply(&op);
     }
+    // a quarter of the histories start from a directory that an interrupted manifest store left
+    // dirty: a stale temporary file (durable, junk content) sits next to the manifest
+    let dirty = rng.chance(1, 4);
+    if dirty {
+      let junk = b"{\"stale\": true, \"segments\": [".to_vec();
+      std::fs::write(dir.join("MANIFEST.tmp"), &junk).expect("stale tmp");
+      fs.inodes.push(slv::crashfs::Inode { vol: junk.clone(), dur: junk });
+      let i = fs.inodes.len() - 1;
+      fs.vdir.insert("MANIFEST.tmp".into(), i);
+      fs.ddir.insert("MANIFEST.tmp".into(), i);
+      *kinds.entry("dirty_start_stale_tmp".into()).or_insert(0) += 1;
+    }
     let mut sys = Sys { idx: Some(idx), writers: BTreeMap::new(), opts, mem: None };
     let mut abs = Abstractor { seg_begun: Vec::new(), seg_unlinked: Vec::new(), last_was_wal_open: false };
     let mut seg_names: Vec<String> = Vec::new();
